@@ -227,14 +227,14 @@ class FakeResp:
     def error(self): return self.status_code // 100 != 2
 
 
-def hpp_client(settings, pid, password):
+def hpp_client(settings, pid, password, game_server_id=0x12345678, nex_version="3.10.0"):
     """the real constructor; on this tree it raises FileNotFoundError (finding D6, property C20: doubled certificate
     path), so `resources.certificate` is stubbed for the duration of the call — everything else is the library's"""
     saved = (hpp.resources.certificate, hpp.tls.TLSContext.set_authority)
     hpp.resources.certificate = lambda name: None
     hpp.tls.TLSContext.set_authority = lambda self, ca: None
     try:
-        return hpp.HppClient(settings, 0x12345678, "3.10.0", pid, password)
+        return hpp.HppClient(settings, game_server_id, nex_version, pid, password)
     finally:
         hpp.resources.certificate, hpp.tls.TLSContext.set_authority = saved
 
@@ -268,6 +268,51 @@ def hpp_request(settings, pid, password, call_id, protocol, method, body, status
     req = cap[0]
     data = req.files["file"]
     return (data, req.headers["signature1"], req.headers["signature2"]), val
+
+
+def hpp_request_full(client, protocol, method, body, status, resp_body):
+    """one request on the GIVEN HppClient object (nothing on it is touched); returns (captured HTTPRequest | None, validation line)"""
+    cap = []
+    async def fake_request(host, req, ctx):
+        cap.append((host, req))
+        return FakeResp(status, resp_body)
+    saved = hpp.http.request
+    hpp.http.request = fake_request
+    try:
+        try:
+            r = run(client.request(protocol, method, body))
+            val = "body " + hx(r)
+        except nexcommon.RMCError as e:
+            val = "rmcerror %d" % e.code()
+        except Exception as e:
+            val = "err " + exc_name(e)
+    finally:
+        hpp.http.request = saved
+    return (cap[0] if cap else None), val
+
+
+# ------------------------------------------------------------------ nasc
+class FakeNascResp:
+    def __init__(self, status, text): self.status_code, self.text, self.form = status, text, None
+    def error(self): return self.status_code // 100 != 2
+
+
+def nasc_login(client, game_server_id, nickname, status, text):
+    """one login on the GIVEN NASCClient; returns (captured HTTPRequest | None, LoginResponse | exception)"""
+    cap = []
+    async def fake_request(host, req, ctx):
+        cap.append((host, req))
+        return FakeNascResp(status, text)
+    saved = nasc.http.request
+    nasc.http.request = fake_request
+    try:
+        try:
+            res = run(client.login(game_server_id, nickname))
+        except Exception as e:
+            res = e
+    finally:
+        nasc.http.request = saved
+    return (cap[0] if cap else None), res
 
 
 # ------------------------------------------------------------------ prodinfo
